@@ -241,6 +241,13 @@ def main():
         n_conn = 2 if pt['cache'] == 'warm' else 1
         for i in range(n_conn):
             conns.append(one_connection(pt, ex, origin, host, verify_ca, name_for_cert))
+        # warm points: a SECOND host that reaches the same origin (same origin certificate, valid for
+        # both names) must get its own leaf naming that second host
+        if pt['cache'] == 'warm' and host in ('origin.test', '127.0.0.1'):
+            alt = '127.0.0.1' if host == 'origin.test' else 'origin.test'
+            c = one_connection(pt, ex, origin, alt, verify_ca, alt)
+            c['alt_host'] = alt
+            conns.append(c)
         res['connections'] = conns
         time.sleep(0.1)
         ex.work_queue.put(False)
